@@ -3,8 +3,9 @@
 #include "hx.h"
 int hx_can(int argc, char** argv, unsigned offset);
 int hx_canbrief(int argc, char** argv, unsigned offset);
+int hx_vss(int argc, char** argv, unsigned offset);
 int hx_ext(int argc, char** argv) {
     const char* off = getenv("HX_OFFSET");
     unsigned o = off ? (unsigned)atoi(off) : 0;
-    return hx_can(argc, argv, o) || hx_canbrief(argc, argv, o);
+    return hx_can(argc, argv, o) || hx_canbrief(argc, argv, o) || hx_vss(argc, argv, o);
 }
